@@ -217,6 +217,20 @@ def rule_e(ctx, cr):
               for b, i, st in r.aggregates("mach::val::Val", "Integer") for c in r.conds_at(b))
     ctx.check(bool(zero) and emp, "C17.e", "input/empty-field-is-zero", r.span,
               "an empty numeric field is Integer 0")
+    # string field or numeric field? decided by the variable's type, which DEFSTR can give to a
+    # name without `$`
+    spush = [c for c in r.calls_to("mach::stack::Stack<T>::push")
+             if (r.stored_variant(r.value_of_operand(c.args[1])) or ("", ""))[1] == "String"]
+    fetches = r.calls_to("mach::var::Var::fetch")
+    by_type = bool(fetches) and any(r.dominates(fc.bb, c.bb) for fc in fetches for c in spush)
+    by_spelling = any("'$'" in r.describe(a) for c in r.calls_matching(r"<impl str>::ends_with$")
+                      for a in c.args)
+    ctx.check(bool(spush) and by_type and not by_spelling, "C17.e", "input/string-field-by-type",
+              r.span, "a field is taken as text (quotes stripped, no numeric conversion) when the "
+              "variable is of string type",
+              "INPUT decides `string field` from a `$` at the end of the variable's name: a "
+              "variable made a string by DEFSTR gets its reply converted to a number, so a reply "
+              "like 5 is a TYPE MISMATCH (REDO FROM START for ever) and enclosing quotes are kept")
     tr = r.calls_matching(r"<impl str>::trim$")
     ctx.check(len(tr) == 1, "C17.e", "input/trims-field", r.span, "surrounding blanks are stripped")
     f = cr.need_fn("<mach::val::Val as std::convert::From<&str>>::from")
